@@ -171,11 +171,18 @@ def real_pairs(job):
     c2["stored_food"].initial_available = c["stored_food"].initial_available + Food(bump, 0, 0)
     if c["ADD_STORED_FOOD"]:
         pairs.append(dict(kind="more_supply", what="stored_food+0.5 need", z0=z0, z1=z_of(c2, t2)))
-    for wk in ("STORED_FOOD_WASTE_RETAIL", "CROP_WASTE_RETAIL", "MEAT_WASTE_RETAIL"):
+    wkeys = ["STORED_FOOD_WASTE_RETAIL", "CROP_WASTE_RETAIL", "MEAT_WASTE_RETAIL"]
+    # (the three resilient foods spell their key differently)
+    wkeys += [k for k, on in (("SCP_RETAIL_WASTE", c["ADD_METHANE_SCP"]), ("CELL_SUGAR_RETAIL_WASTE", c["ADD_CELLULOSIC_SUGAR"]),
+                              ("SEAWEED_WASTE_RETAIL", c["ADD_SEAWEED"])) if on]
+    for wk in wkeys:
         if c[wk] >= 2:
             c2, t2 = copy.deepcopy(c), copy.deepcopy(t)
             c2[wk] = c[wk] - 2
             pairs.append(dict(kind="less_waste", what="%s-2" % wk, z0=z0, z1=z_of(c2, t2)))
+            c2, t2 = copy.deepcopy(c), copy.deepcopy(t)
+            c2[wk] = c[wk] / 2.0
+            pairs.append(dict(kind="less_waste", what="%s halved" % wk, z0=z0, z1=z_of(c2, t2)))
         if c[wk] > 0.5:
             # down to half a percent (waste is a percentage whatever its size)
             c2, t2 = copy.deepcopy(c), copy.deepcopy(t)
